@@ -90,6 +90,8 @@ func extParams(cfg extCfg) *ext4.Params {
 
 type extRun struct {
 	straddleReached bool // the Straddle macro brought the lowest free block to the last block of a group
+	manyExtentsDone int  // extents the ManyExtents macro reached
+	fullReached     bool // the Full macro got a write refused
 	edgeReached     bool // the GroupEdge macro brought the lowest free block to the first block of a group
 	fsckMid         int  // worst e2fsck exit status seen INSIDE a macro call (0 = clean)
 	cfg    extCfg
@@ -307,6 +309,8 @@ func (r *extRun) event(op extOp, res, panicked string, same []int) map[string]an
 	ev["fsckmid"] = r.fsckMid
 	ev["straddle"] = r.straddleReached
 	ev["edge"] = r.edgeReached
+	ev["manyextents"] = r.manyExtentsDone
+	ev["fullreached"] = r.fullReached
 	r.fsckMid = 0
 	if r.cfg.Fsck {
 		code, text := r.fsck()
@@ -477,6 +481,16 @@ func (r *extRun) do(op extOp) map[string]any {
 					err = fmt.Errorf("cannot remove temporary %s: %v", made[i][len(made[i])-12:], e)
 				}
 			}
+		case "Truncate":
+			if tr, ok := fs.(interface{ Truncate(string, int64) error }); ok {
+				err = tr.Truncate(real, r.unit(op.Off))
+			} else {
+				err = fmt.Errorf("no Truncate")
+			}
+		case "ManyExtents":
+			err = r.manyExtents(op.K)
+		case "Full":
+			err = r.full()
 		case "Straddle":
 			err = r.straddle()
 		case "GroupEdge":
@@ -710,6 +724,218 @@ func (r *extRun) straddle() error {
 		}
 	}
 	return nil
+}
+
+// manyExtents grows one file to k extents that cannot be merged (one block at a time, alternating with a
+// second file), so that its extent tree gets index blocks and, past a few hundred extents, a second
+// level; the file is read back in full along the way, the image is checked by e2fsck (when that is on)
+// at eight points and at the end both files are removed.  Net effect on the tree: none.
+func (r *extRun) manyExtents(k int) error {
+	fs := r.vol.FS
+	names := []string{"many-extents-x.bin", "many-extents-y.bin"}
+	for _, n := range names {
+		f, e := fs.OpenFile(n, os.O_CREATE|os.O_RDWR)
+		if e != nil {
+			for _, m := range names {
+				fs.Remove(m)
+			}
+			return nil // no room
+		}
+		f.Close()
+	}
+	cleanup := func() error {
+		var first error
+		for _, n := range names {
+			if e := fs.Remove(n); e != nil && first == nil {
+				first = fmt.Errorf("cannot remove %s: %v", n, e)
+			}
+		}
+		return first
+	}
+	check := func(i int) error {
+		g, e := fs.OpenFile(names[0], os.O_RDONLY)
+		if e != nil {
+			return fmt.Errorf("file of %d extents cannot be opened: %v", i, e)
+		}
+		got, e := fsx.ReadAll(g, int64(i+1)*r.B+10)
+		g.Close()
+		if e != nil || int64(len(got)) != int64(i)*r.B {
+			return fmt.Errorf("file of %d extents reads back %d bytes (err %v)", i, len(got), e)
+		}
+		for j := 0; j < i; j++ {
+			if !bytes.Equal(got[int64(j)*r.B:int64(j+1)*r.B], r.content(30+j%50, 0, r.B)) {
+				return fmt.Errorf("file of %d extents: block %d reads back differently", i, j)
+			}
+		}
+		if r.cfg.Fsck {
+			if code, text := r.fsck(); code != 0 {
+				r.fsckMid = code
+				return fmt.Errorf("e2fsck exit %d with a file of %d extents: %s", code, i, text)
+			}
+		}
+		return nil
+	}
+	step := k / 8
+	if step == 0 {
+		step = 1
+	}
+	done := 0
+	for i := 0; i < k; i++ {
+		full := false
+		for _, n := range names {
+			f, e := fs.OpenFile(n, os.O_RDWR|os.O_APPEND)
+			if e != nil {
+				full = true
+				break
+			}
+			_, e = f.Write(r.content(30+i%50, 0, r.B))
+			f.Close()
+			if e != nil {
+				full = true
+				break
+			}
+		}
+		if full {
+			break
+		}
+		done = i + 1
+		if done%step == 0 {
+			if e := check(done); e != nil {
+				cleanup()
+				return e
+			}
+		}
+	}
+	r.manyExtentsDone = done
+	if done > 0 && done%step != 0 {
+		if e := check(done); e != nil {
+			cleanup()
+			return e
+		}
+	}
+	if e := cleanup(); e != nil {
+		return e
+	}
+	if r.cfg.Fsck {
+		if code, text := r.fsck(); code != 0 {
+			r.fsckMid = code
+			return fmt.Errorf("e2fsck exit %d after removing a file of %d extents: %s", code, done, text)
+		}
+	}
+	return nil
+}
+
+// full fills the volume until a write is refused, then makes the calls that need a fresh block or inode
+// (Mkdir, Create + write, Symlink with a long target, Append) - each may be refused, none may leave the
+// image unclean - removes what it made and the filler.  Net effect on the tree: none.
+func (r *extRun) full() error {
+	fs := r.vol.FS
+	var made []string
+	chk := func(when string) error {
+		if r.cfg.Fsck {
+			if code, text := r.fsck(); code != 0 {
+				r.fsckMid = code
+				return fmt.Errorf("e2fsck exit %d %s: %s", code, when, text)
+			}
+		}
+		return nil
+	}
+	cleanup := func() error {
+		var first error
+		for i := len(made) - 1; i >= 0; i-- {
+			if e := fs.Remove(made[i]); e != nil && first == nil {
+				first = fmt.Errorf("cannot remove %s: %v", made[i], e)
+			}
+		}
+		return first
+	}
+	chunk := r.content(41, 0, 64*r.B)
+	refused := false
+	for fi := 0; fi < 64 && !refused; fi++ {
+		n := fmt.Sprintf("filler-%02d.bin", fi)
+		f, e := fs.OpenFile(n, os.O_CREATE|os.O_RDWR)
+		if e != nil {
+			refused = true
+			break
+		}
+		made = append(made, n)
+		for j := 0; j < 512; j++ {
+			if _, e := f.Write(chunk); e != nil {
+				refused = true
+				break
+			}
+		}
+		f.Close()
+	}
+	// single blocks until nothing goes in any more
+	for i := 0; i < 200; i++ {
+		n := fmt.Sprintf("filler-small-%03d.bin", i)
+		f, e := fs.OpenFile(n, os.O_CREATE|os.O_RDWR)
+		if e != nil {
+			break
+		}
+		made = append(made, n)
+		_, e = f.Write(r.content(42, 0, r.B))
+		f.Close()
+		if e != nil {
+			break
+		}
+	}
+	r.fullReached = r.fullReached || refused
+	if e := chk("with the volume filled until a write was refused"); e != nil {
+		cleanup()
+		return e
+	}
+	type try struct {
+		name string
+		do   func() error
+		undo string
+	}
+	tries := []try{
+		{"Mkdir on the full volume", func() error { return fs.Mkdir("dir-on-full-volume") }, "dir-on-full-volume"},
+		{"Create + write on the full volume", func() error {
+			f, e := fs.OpenFile("file-on-full-volume", os.O_CREATE|os.O_RDWR)
+			if e != nil {
+				return e
+			}
+			_, e = f.Write(r.content(43, 0, 3*r.B))
+			f.Close()
+			return e
+		}, "file-on-full-volume"},
+		{"Symlink with a long target on the full volume", func() error { return fs.Symlink(symTarget("t255"), "link-on-full-volume") }, "link-on-full-volume"},
+		{"Append on the full volume", func() error {
+			if len(made) == 0 {
+				return nil
+			}
+			f, e := fs.OpenFile(made[0], os.O_RDWR|os.O_APPEND)
+			if e != nil {
+				return e
+			}
+			_, e = f.Write(r.content(44, 0, 2*r.B))
+			f.Close()
+			return e
+		}, ""},
+	}
+	for _, t := range tries {
+		e := t.do()
+		if t.undo != "" {
+			if _, serr := fs.Stat(t.undo); serr == nil {
+				made = append(made, t.undo)
+			}
+		}
+		res := "accepted"
+		if e != nil {
+			res = "refused (" + e.Error() + ")"
+		}
+		if ce := chk("after " + t.name + ", " + res); ce != nil {
+			cleanup()
+			return ce
+		}
+	}
+	if e := cleanup(); e != nil {
+		return e
+	}
+	return chk("after emptying the volume again")
 }
 
 // groupEdge puts two files at block-group boundaries - X1 fills a whole group g from its first block, X2
